@@ -34,6 +34,8 @@ def dot (a b : V2 α) : α := a.x * b.x + a.y * b.y
 def cross (a b : V2 α) : α := a.x * b.y - a.y * b.x
 def normSq (a : V2 α) : α := dot a a
 def norm [Scalar α] (a : V2 α) : α := Scalar.sqrt (normSq a)
+/-- nalgebra `normalize()`: every component divided by the norm -/
+def normalize [Scalar α] (v : V2 α) : V2 α := let n := V2.norm v; ⟨v.x / n, v.y / n⟩
 end V2
 
 namespace V3
@@ -46,6 +48,14 @@ def cross (a b : V3 α) : V3 α :=
   ⟨a.y * b.z - a.z * b.y, a.z * b.x - a.x * b.z, a.x * b.y - a.y * b.x⟩
 def normSq (a : V3 α) : α := dot a a
 def norm [Scalar α] (a : V3 α) : α := Scalar.sqrt (normSq a)
+def normalize [Scalar α] (v : V3 α) : V3 α := let n := V3.norm v; ⟨v.x / n, v.y / n, v.z / n⟩
 end V3
+
+/-- nalgebra `Iso2::rotation(θ)` (a unit complex number) acting on a vector -/
+structure Rot2 (α : Type) where
+  c : α
+  s : α
+def Rot2.ofAngle [Scalar α] (t : α) : Rot2 α := ⟨Scalar.cos t, Scalar.sin t⟩
+def Rot2.apply (r : Rot2 α) (v : V2 α) : V2 α := ⟨v.x * r.c - v.y * r.s, v.x * r.s + v.y * r.c⟩
 
 end
